@@ -25,7 +25,11 @@ type EvLog struct {
 var hashDebug = os.Getenv("VERIF_HASHDBG") != ""
 
 func NewEvLog(now func() time.Duration) *EvLog {
-	return &EvLog{h: 14695981039346656037, shapeH: 14695981039346656037, Keep: 150, now: now}
+	keep := 150
+	if hashDebug {
+		keep = 1 << 20
+	}
+	return &EvLog{h: 14695981039346656037, shapeH: 14695981039346656037, Keep: keep, now: now}
 }
 
 func (l *EvLog) mix(s string) {
@@ -44,6 +48,16 @@ func (l *EvLog) Logf(format string, args ...any) {
 	if hashDebug {
 		line = fmt.Sprintf("[%016x] %s", l.h, line)
 	}
+	l.keep(line)
+}
+
+// LogfCoarse is Logf with the time stamp truncated to whole microseconds, for
+// events whose instant can jitter by a nanosecond for reasons the seed does not
+// control (a library select with two ready cases).
+func (l *EvLog) LogfCoarse(format string, args ...any) {
+	us := int64(l.now()) / 1000
+	line := fmt.Sprintf("%9d.~~~us ", us) + fmt.Sprintf(format, args...)
+	l.mix(line)
 	l.keep(line)
 }
 
